@@ -209,9 +209,14 @@ impl Entry {
     pub fn call(&self, ip: &IpAddr, port: u16, retries: usize) -> GDResult<()> { self.call_json(ip, port, retries).map(|_| ()) }
 
     /// Call the entry point; the response is returned in its JSON form.
-    pub fn call_json(&self, ip: &IpAddr, port: u16, retries: usize) -> GDResult<serde_json::Value> {
+    pub fn call_json(&self, ip: &IpAddr, port: u16, retries: usize) -> GDResult<serde_json::Value> { self.call_json_opt(ip, Some(port), Some(retries)) }
+
+    /// As `call_json`; `port` None = let the entry point use its default (only meaningful for Generic and Module),
+    /// `retries` None = pass no timeout settings at all.
+    pub fn call_json_opt(&self, ip: &IpAddr, port_opt: Option<u16>, retries: Option<usize>) -> GDResult<serde_json::Value> {
+        let port = port_opt.unwrap_or(0);
         let addr = SocketAddr::new(*ip, port);
-        let t = timeout(retries);
+        let t = retries.and_then(timeout);
         match self {
             Entry::Valve { engine, players, rules, check } => {
                 let g = valve::GatheringSettings {
@@ -266,7 +271,7 @@ impl Entry {
                         .set_gather_rules(toggle(r))
                         .set_check_app_id(c)
                 });
-                gamedig::query_with_timeout_and_extra_settings(g, ip, Some(port), t, extra)
+                gamedig::query_with_timeout_and_extra_settings(g, ip, port_opt, t, extra)
                     .map(|r| {
                         let mut j = serde_json::to_value(r.as_original()).unwrap_or(serde_json::Value::Null);
                         crate::util::normalise_sets(&mut j);
@@ -276,27 +281,27 @@ impl Entry {
             Entry::Module { game } => {
                 let m = module_for(game).ok_or_else(|| gamedig::GDErrorKind::InvalidInput.context("no module"))?;
                 match m.f {
-                    ModuleFn::Valve(f) => unit(f(ip, Some(port))),
-                    ModuleFn::Gs1(f) => unit(f(ip, Some(port))),
-                    ModuleFn::Gs2(f) => unit(f(ip, Some(port))),
-                    ModuleFn::Gs3(f) => unit(f(ip, Some(port))),
-                    ModuleFn::Quake1(f) => unit(f(ip, Some(port))),
-                    ModuleFn::Quake23(f) => unit(f(ip, Some(port))),
-                    ModuleFn::Unreal2(f) => unit(f(ip, Some(port))),
+                    ModuleFn::Valve(f) => unit(f(ip, port_opt)),
+                    ModuleFn::Gs1(f) => unit(f(ip, port_opt)),
+                    ModuleFn::Gs2(f) => unit(f(ip, port_opt)),
+                    ModuleFn::Gs3(f) => unit(f(ip, port_opt)),
+                    ModuleFn::Quake1(f) => unit(f(ip, port_opt)),
+                    ModuleFn::Quake23(f) => unit(f(ip, port_opt)),
+                    ModuleFn::Unreal2(f) => unit(f(ip, port_opt)),
                     ModuleFn::Special => {
                         match game.as_str() {
-                            "minecraft" => unit(minecraft::query(ip, Some(port))),
-                            "minecraftjava" => unit(minecraft::query_java(ip, Some(port), None)),
-                            "minecraftbedrock" | "minecraftpocket" => unit(minecraft::query_bedrock(ip, Some(port))),
-                            "minecraftlegacy16" => unit(minecraft::query_legacy_specific(legacy_group(0), ip, Some(port))),
-                            "minecraftlegacy14" => unit(minecraft::query_legacy_specific(legacy_group(1), ip, Some(port))),
-                            "minecraftlegacyb18" => unit(minecraft::query_legacy_specific(legacy_group(2), ip, Some(port))),
-                            "battalion1944" => unit(battalion1944::query(ip, Some(port))),
-                            "ffow" => unit(ffow::query(ip, Some(port))),
-                            "savage2" => unit(savage2::query(ip, Some(port))),
-                            "theship" => unit(theship::query(ip, Some(port))),
-                            "jc2m" => unit(jc2m::query(ip, Some(port))),
-                            "mindustry" => unit(mindustry::query(ip, Some(port), &None)),
+                            "minecraft" => unit(minecraft::query(ip, port_opt)),
+                            "minecraftjava" => unit(minecraft::query_java(ip, port_opt, None)),
+                            "minecraftbedrock" | "minecraftpocket" => unit(minecraft::query_bedrock(ip, port_opt)),
+                            "minecraftlegacy16" => unit(minecraft::query_legacy_specific(legacy_group(0), ip, port_opt)),
+                            "minecraftlegacy14" => unit(minecraft::query_legacy_specific(legacy_group(1), ip, port_opt)),
+                            "minecraftlegacyb18" => unit(minecraft::query_legacy_specific(legacy_group(2), ip, port_opt)),
+                            "battalion1944" => unit(battalion1944::query(ip, port_opt)),
+                            "ffow" => unit(ffow::query(ip, port_opt)),
+                            "savage2" => unit(savage2::query(ip, port_opt)),
+                            "theship" => unit(theship::query(ip, port_opt)),
+                            "jc2m" => unit(jc2m::query(ip, port_opt)),
+                            "mindustry" => unit(mindustry::query(ip, port_opt, &None)),
                             _ => Err(gamedig::GDErrorKind::InvalidInput.context("not scripted")),
                         }
                     }
